@@ -281,6 +281,7 @@ namespace RecInt
     // a = b + c    (r stores the carry)
     template <size_t K, typename T>
     inline __RECINT_IS_ARITH(T, void) add(bool& r, ruint<K>& a, const ruint<K>& b, const T& c) {
+        if (__recint_isneg(c)) { sub(r, a, b, __recint_mag(c)); return; } // b + c = b - |c|
         bool rl;
         add(rl, a.Low, b.Low, c);
         add(r, a.High, b.High, rl);
@@ -288,11 +289,13 @@ namespace RecInt
     // TODO Use __RECINT_USE_FAST_128 here too
     template <typename T>
     inline __RECINT_IS_ARITH(T, void) add(bool& r, ruint<__RECINT_LIMB_SIZE+1>& a, const ruint<__RECINT_LIMB_SIZE+1>& b, const T& c) {
+        if (__recint_isneg(c)) { sub(r, a, b, __recint_mag(c)); return; } // b + c = b - |c|
         recint_add_ssaaaa(a.High.Value, a.Low.Value, b.High.Value, b.Low.Value, 0, (UWtype)(c));
         r = (a < c);
     }
     template <typename T>
     inline __RECINT_IS_ARITH(T, void) add(bool& r, ruint<__RECINT_LIMB_SIZE>& a, const ruint<__RECINT_LIMB_SIZE>& b, const T& c) {
+        if (__recint_isneg(c)) { sub(r, a, b, __recint_mag(c)); return; } // b + c = b - |c|
         a.Value = b.Value + limb(c);
         r = (a.Value < limb(c));
     }
@@ -300,17 +303,20 @@ namespace RecInt
     // a += b    (r stores the carry)
     template <size_t K, typename T>
     inline __RECINT_IS_ARITH(T, void) add(bool& r, ruint<K>& a, const T& b) {
+        if (__recint_isneg(b)) { sub(r, a, __recint_mag(b)); return; } // a + b = a - |b|
         bool rl;
         add(rl, a.Low, b);
         add(r, a.High, rl);
     }
     template <typename T>
     inline __RECINT_IS_ARITH(T, void) add(bool& r, ruint<__RECINT_LIMB_SIZE+1>& a, const T& b) {
+        if (__recint_isneg(b)) { sub(r, a, __recint_mag(b)); return; } // a + b = a - |b|
         recint_add_ssaaaa(a.High.Value, a.Low.Value, a.High.Value, a.Low.Value, 0, (UWtype)(b));
         r = (a < b);
     }
     template <typename T>
     inline __RECINT_IS_ARITH(T, void) add(bool& r, ruint<__RECINT_LIMB_SIZE>& a, const T& b) {
+        if (__recint_isneg(b)) { sub(r, a, __recint_mag(b)); return; } // a + b = a - |b|
         a.Value += limb(b);
         r = (a.Value < limb(b));
     }
